@@ -535,8 +535,9 @@ class Facts:
 _FACTS = {}
 
 
-def load(repo=None, config="default"):
+def load(repo=None, config=None):
     repo = repo or REPO
+    config = config or os.environ.get("VERIF_CONFIG", "default")
     path, h, dt = ensure_facts(repo, config)
     if path not in _FACTS:
         f = Facts(path)
